@@ -101,6 +101,7 @@ class SelectPlan:
         names = []
         self.cols = []
         self.col_tables = []
+        star_cols = {}
         for e, alias in sel.columns:
             if e[0] == 'star':
                 q = e[1].lower() if e[1] else None
@@ -110,6 +111,7 @@ class SelectPlan:
                         found = True
                         for lname, (name, cs) in s.cols.items():
                             self.cols.append(comp._col_closure(0, s.index, lname, cs))
+                            star_cols.setdefault(lname, []).append(self.cols[-1])
                             names.append(name)
                             self.col_tables.append(s.alias)
                 if not found:
@@ -138,7 +140,17 @@ class SelectPlan:
             self.having = comp.expr(sel.having, scope, 'having') if sel.having is not None else None
         finally:
             scope.aliases = saved
-        self.order_by = [(self._positional(e, 'first'), desc) for e, desc in sel.order_by]
+        # ORDER BY looks an unqualified name up among the output columns first: a column produced by `t.*` counts,
+        # provided the name occurs once in the select list
+        lnames = [n.lower() for n in names]
+        added = [ln for ln, fs in star_cols.items() if len(fs) == 1 and lnames.count(ln) == 1 and ln not in scope.aliases]
+        for ln in added:
+            scope.aliases[ln] = star_cols[ln][0]
+        try:
+            self.order_by = [(self._positional(e, 'first'), desc) for e, desc in sel.order_by]
+        finally:
+            for ln in added:
+                del scope.aliases[ln]
         scope.allow_agg = False
         self.limit = comp.expr(sel.limit, Scope(parent=None, routine=scope.routine)) if sel.limit is not None else None
         self.offset = comp.expr(sel.offset, Scope(parent=None, routine=scope.routine)) if sel.offset is not None else None
